@@ -1,7 +1,7 @@
 """C08  Control hooks form a balanced, truthful protocol (DESIGN.md 4.3, 5/C08)."""
 import collections
 from .. import core, units, hooks, rewind
-from ..mon_base import is_match_root
+from ..mon_base import is_match_root, is_input_type
 
 
 def site_of(fn):
@@ -15,7 +15,13 @@ def run(tier):
         from .. import repo_units
         paths += repo_units.extract_all(R)
     db = core.DB(paths)
-    fns = [f for f in db.order if f['q'] == 'tao::pegtl::match' and '/tao/pegtl/' in f['pat']]
+    def known_control(f):
+        # in the repository's own units only instantiations under the library's default control are enumerated: other controls there are user code whose hooks
+        # have bodies of their own (tracers, counters, error tables); the wrappers and the stateful controls of the library are analysed through the universe
+        if not core.is_repo_unit(f.get('_unit')): return True
+        tm = [x.get('s') for x in f.get('ta', []) if x.get('k') == 'tmpl']
+        return bool(tm) and tm[-1] == 'tao::pegtl::normal'
+    fns = [f for f in db.order if f['q'] == 'tao::pegtl::match' and '/tao/pegtl/' in f['pat'] and f.get('params') and is_input_type(f['params'][0]['t']) and known_control(f)]
     if len(fns) < 60:
         R.broke('only %d instantiations of tao::pegtl::match found (floor 60)' % len(fns))
     shapes = set(); rows = 0
@@ -45,9 +51,10 @@ def run(tier):
     R.cov['states'] = rows
     if tier == 'quick' and len(shapes) < 20:
         R.broke('only %d distinct dispatch shapes covered (floor 20)' % len(shapes))
-    wrappers(db, R)
+    udb = core.DB(core.extract(units.DISPATCH)) if tier == 'thorough' else db      # the wrapper / must_if clauses are about library code: universe units
+    wrappers(udb, R)
     stateful_controls(R)
-    must_if_failure(db, R)
+    must_if_failure(udb, R)
     R.assumptions = ['rule boundary = opaque oracle (true/false/exception); hooks are opaque events that may throw',
                      'exceptions thrown by a closing hook itself (success/failure/start/unwind) are outside the statement']
     return R.finish(
